@@ -41,8 +41,8 @@ CHECKS = {
               "PARTIAL proof (props/C03.v): BOUNDED INSTANCES - every schedule of <=2 link faults (drop/duplicate/delay of any PDU "
               "occurrence, either direction) on files of 0/5/9 bytes, both NAK modes, closure on/off, limits K+3, and every schedule "
               "of 3 faults on a 5-byte file, evaluated inside the kernel on System.v: delivered, both users successful, both idle. "
-              "UNBOUNDED for K = 1 (props/C03u.v): for every file, every position of ONE lost File Data PDU, immediate and deferred NAK "
-              "mode, the transfer is delivered byte-identical without API error. The general liveness theorem (all K, all fault "
+              "UNBOUNDED for K = 1 (props/C03u.v, C03m.v): for every file, every position of ONE lost File Data PDU, and for the lost "
+              "Metadata PDU, immediate and deferred NAK mode, the transfer is delivered byte-identical without API error. The general liveness theorem (all K, all fault "
               "kinds, all interleavings) is not proved.", "6/C03"),
     "C04": _c("Coq proof (case analysis of the three retry procedures, for all limits N and intervals) + correspondence + virtual-clock oracle",
               "Proof (props/C04.v): EOF-awaiting-ACK, Finished-awaiting-ACK and the NAK procedure: nothing before expiry; expiry k<N "
